@@ -8,7 +8,7 @@ def build():
     return cc('u_hostlist', ['u_hostlist.c', S('liblsd/hostlist.c'), S('libcommon/error.c'), S('libcommon/xmalloc.c')], san=True)
 
 
-PREFIXES = ['t', 'n', 'foo', 'a1b', 'x-', 'node', 'r2d', 'h_', 'c0', 'T.']
+PREFIXES = ['t', 'n', 'foo', 'a1b', 'x-', 'node', 'r2d', 'h_', 'c0', 'T.', 'n12', 'a05', 'node10', 'x100', 'r7_3']
 
 
 def gen_name(R, pool):
@@ -65,7 +65,15 @@ def gen_ops(seed, n, overlap=0.02):
                 # overlapping ranges with mixed zero padding, then a sort (F19)
                 e = R.choice(['f[97-100,066,97-103]', 'g[8-12,010,9-11]', 'f[1-3,02,1-4]']); pool = []
                 ops.append('C ' + e); ops.append('E'); ops.append('S'); ops.append('E'); continue
-            else: pool = []
+            else:
+                # the names the expression denotes (as far as this simple expander understands it) become candidates for find /
+                # delete / nth: membership must agree with the expansion for names that entered through a bracket, too
+                pool = []
+                try:
+                    import preds
+                    pool = [x.decode() for x in preds.expand_hl(e.encode()) if not any(c in x.decode() for c in '[], \t')][:40]
+                    R.shuffle(pool); pool = pool[:6]
+                except Exception: pool = []
             ops.append('C ' + e)
         elif r < 0.40:
             nm = gen_name(R, pool); pool.append(nm); ops.append('P ' + nm)
